@@ -297,6 +297,9 @@ func (x *c11Run_) step(st c11Step) {
 				p = vfPkt{Type: rfRead, Handle: hs, Off: 0, Len: 50}
 			case 1:
 				p = vfPkt{Type: rfWrite, Handle: hs, Off: 0, Data: []byte("STALE-WRITE")}
+				if st.arg%2 == 1 {
+					p.Data = nil // a write of nothing is still a request on a dead handle
+				}
 			case 2:
 				p = vfPkt{Type: rfFstat, Handle: hs}
 			case 3:
@@ -529,7 +532,8 @@ func c11Run(u *vfUnit) {
 			cut := 1 + r.Intn(len(fr)-1)
 			var cerr error
 			if en.how == "midpacket-error" {
-				cerr = errVfCut
+				// (whatever value the transport's failure has, also "use of closed network connection")
+				cerr = vfFaultErr(ei + u.Index)
 			}
 			rs.Ctl.CutAfter(vfC2S, rs.Ctl.Delivered(vfC2S)+int64(cut), cerr, nil)
 			rs.R.Send(fr)
